@@ -12,6 +12,7 @@ import math
 import numpy as np
 
 PROPERTY = "C24"
+TECHNIQUE = "runtime monitoring; closed-form float64 / 50-digit decimal oracle with hard-coded CODATA constants on the real energy functions and on objects exposing them"
 RULE = ("energies drawn log-uniformly from [1 eV, 10 MeV] plus boundary values; reciprocal samplings "
         "log-uniform; a case is non-trivial when it evaluates wavelength, sigma and angular sampling at a "
         "positive energy; distinct = distinct (kind, rounded energy) signature; refusal cases use 0, -0.0, "
